@@ -118,17 +118,19 @@ class Check:
             del ev["coverage"]["distinct_nontrivial"]
         if self.known:
             ev["coverage"]["known_findings_hit"] = [k[0] for k in self.known]
-        (VERIF / "evidence").mkdir(exist_ok=True)
-        with open(VERIF / "evidence" / f"{self.pid}.json", "w") as f:
+        evdir = Path(os.environ.get("VERIF_EVIDENCE_DIR") or (VERIF / "evidence"))
+        evdir.mkdir(exist_ok=True)
+        with open(evdir / f"{self.pid}.json", "w") as f:
             json.dump(ev, f, indent=1, default=jsonable)
         for sig, what in self.known:
             print(f"KNOWN-FINDING: property={self.pid} {sig} :: {what}")
         rc = 0
         if self.violations:
-            (VERIF / "replays").mkdir(exist_ok=True)
+            rdir = Path(os.environ["VERIF_EVIDENCE_DIR"]) if os.environ.get("VERIF_EVIDENCE_DIR") else VERIF / "replays"
+            rdir.mkdir(exist_ok=True)
             for sig, what, replay in self.violations:
                 h = hashlib.sha1((sig + json.dumps(jsonable(replay), sort_keys=True)).encode()).hexdigest()[:10]
-                path = VERIF / "replays" / f"{self.pid}-{h}.json"
+                path = rdir / f"{self.pid}-{h}.json"
                 with open(path, "w") as f:
                     json.dump({"property": self.pid, "signature": sig, "what": what, "replay": jsonable(replay)}, f, indent=1)
                 print(f"VIOLATION property={self.pid} replay={path} :: {sig} :: {what}")
